@@ -566,7 +566,7 @@ Proof.
   destruct (if (n_next_peers n3 <=? now)%Z then _ else _) as [n4 fx4]. destruct H4 as [N4 F4]. cbn [fst snd] in *.
   pose proof (reconnect_step_good salts now n4 N4) as [N5 F5]. destruct (reconnect_step salts now n4) as [n5 fx5]. cbn [fst snd] in *.
   split.
-  - cbn [fst]. destruct (n_next_own_reset n5 <=? now)%Z; [eapply ne_same; [| | |exact N5]; reflexivity|exact N5].
+  - cbn [fst]. destruct (negb (c_hkfault (n_cfg n5)) && (n_next_own_reset n5 <=? now)%Z); [eapply ne_same; [| | |exact N5]; reflexivity|exact N5].
   - cbn [snd]. repeat (apply Forall_app; split); assumption.
 Qed.
 
